@@ -26,6 +26,9 @@ struct SharedCore
 	{
 		if (--rc <= 0)
 		{
+#ifdef ASL_VERIF
+			asl_verif_point(3, &rc);
+#endif
 			delete p;
 			p = 0;
 			delete this;
